@@ -199,6 +199,9 @@ func RuleSpecs(thorough bool) ([]*spec.Spec, map[string][]RuleCase) {
 			// a flattened oneof whose variant messages have required fields of their own, beside two required common fields
 			{"FlatOneofReqWords", "flat_oneof_required", spec.M("FlatOneofReqWords", spec.F("pay_id", "string").R("required:true"), spec.F("currency_code", "string").R("required:true"), spec.F("memo_text", "string"),
 				spec.Msg("card", "CardV").In("method"), spec.Msg("bank", "BankV").In("method"), spec.Msg("cash", "CashV").In("method")).WithOneof(&spec.Oneof{Name: "method", Config: true, Disc: "type", Flatten: true})},
+			// a flattened oneof whose variants have required members named like the oneof's own members (the variant field itself, a sibling variant)
+			{"FlatOneofSelfWords", "flat_oneof_self_named", spec.M("FlatOneofSelfWords", spec.F("ref_id", "string").R("required:true"),
+				spec.Msg("text", "TextV").In("payload"), spec.Msg("image", "ImageV").In("payload")).WithOneof(&spec.Oneof{Name: "payload", Config: true, Disc: "type", Flatten: true})},
 			// required on fields of every structural kind
 			{"StructuralWords", "structural", spec.M("StructuralWords", append(common(), spec.Msg("main_addr", "Addr").R("required:true"), spec.F("tag_list", "string").Rep().R("required:true"),
 				spec.F("attr_map", "string").Map().R("required:true"), spec.Msg("seen_at", ".google.protobuf.Timestamp").R("required:true"), spec.F("raw_data", "bytes").R("required:true"), spec.F("is_set", "bool").R("required:true"))...)},
@@ -209,7 +212,9 @@ func RuleSpecs(thorough bool) ([]*spec.Spec, map[string][]RuleCase) {
 		msgs := []*spec.Message{spec.M("TextContent", spec.F("body", "string")), spec.M("ImageContent", spec.F("url", "string")), spec.M("BarList", spec.F("values", "int32").Rep().Unw()), spec.M("Out", spec.F("ok", "bool")),
 			spec.M("Addr", spec.F("street", "string"), spec.F("zip", "string")), spec.M("Geo", spec.F("lat", "double"), spec.F("lon", "double")),
 			spec.M("CardV", spec.F("card_number", "string").R("required:true"), spec.F("holder_name", "string")), spec.M("BankV", spec.F("iban_code", "string").R("required:true")),
-			spec.M("CashV", spec.F("till_no", "int32").R("required:true"), spec.F("clerk_id", "string").R("required:true"))}
+			spec.M("CashV", spec.F("till_no", "int32").R("required:true"), spec.F("clerk_id", "string").R("required:true")),
+			spec.M("TextV", spec.F("text", "string").R("required:true"), spec.F("lang_code", "string").R("required:true")),
+			spec.M("ImageV", spec.F("url", "string").R("required:true"), spec.F("text", "string"))}
 		svc := spec.Svc("RuleShapeService", "/rs")
 		for _, sh := range shapes {
 			msgs = append(msgs, sh.m)
@@ -219,6 +224,10 @@ func RuleSpecs(thorough bool) ([]*spec.Spec, map[string][]RuleCase) {
 					cs = append(cs, RuleCase{Msg: sh.name, Field: fn, Kind: "string", Label: "rule=required,shape=" + sh.key + ",field=" + fn, Rules: "required:true"})
 				}
 				cs = append(cs, RuleCase{Msg: sh.name, Field: "memo_text", Kind: "string", Label: "rule=none,shape=" + sh.key + ",field=memo_text", Rules: ""})
+				continue
+			}
+			if sh.key == "flat_oneof_self_named" {
+				cs = append(cs, RuleCase{Msg: sh.name, Field: "ref_id", Kind: "string", Label: "rule=required,shape=" + sh.key + ",field=ref_id", Rules: "required:true"})
 				continue
 			}
 			for _, f := range common() {
